@@ -182,9 +182,11 @@ def _capturing_evaluator():
         def __init__(self):
             super().__init__()
             self.seen = None
+            self.calls = []
 
         def _eval(self, schema, inputs, attributes, closure):
             self.seen = (schema, list(inputs))
+            self.calls.append(self.seen)
             return [ostensor.Tensor(np.zeros((), dtype=np.float32))]
 
     _CAP = Capture()
@@ -194,7 +196,9 @@ def _capturing_evaluator():
 import operator as _operator
 
 _PYOPS = {"+": _operator.add, "-": _operator.sub, "*": _operator.mul, "/": _operator.truediv, "**": _operator.pow,
-          "<": _operator.lt, "<=": _operator.le, ">": _operator.gt, ">=": _operator.ge, "==": _operator.eq}
+          "<": _operator.lt, "<=": _operator.le, ">": _operator.gt, ">=": _operator.ge, "==": _operator.eq, "!=": _operator.ne,
+          "%": _operator.mod, "@": _operator.matmul, "&": _operator.and_, "|": _operator.or_, "//": _operator.floordiv,
+          "^": _operator.xor, "<<": _operator.lshift, ">>": _operator.rshift}
 
 
 def _np_tensor(code):
@@ -211,11 +215,13 @@ def run_eager(case):
     from onnxscript.onnx_opset import all_opsets
 
     r = case["schema"]
-    opset = all_opsets[("", r["use"])]
+    if case.get("syntax") and case.get("eager_route") is None:
+        return ("ABSENT", "no Tensor method for this spelling"), None
+    opset = all_opsets[("", case.get("opset", r["use"]))]
     args = []
     for a in case["args"]:
         if a[0] == "T":
-            args.append(ostensor.Tensor(_np_tensor(a[1])))
+            args.append(ostensor.Tensor(_np_tensor(a[1]), opset=opset) if case.get("syntax") else ostensor.Tensor(_np_tensor(a[1])))
         elif a[0] == "L":
             args.append(a[1])
         elif a[0] == "N":
@@ -234,6 +240,7 @@ def run_eager(case):
     attrs = {n: (onnx.GraphProto() if t == "GRAPH" else dummy_attr(n, t)) for n, t in r["required"]}
     cap = _capturing_evaluator()
     cap.seen = None
+    cap.calls = []
     try:
         with evaluator.default_as(cap):
             if case.get("syntax"):
@@ -243,6 +250,24 @@ def run_eager(case):
                 getattr(opset, r["name"])(*args, **kwargs, **attrs)
     except Exception as e:  # noqa: BLE001
         return obs_of_exc(e), None
+    if case.get("syntax"):
+        # Python's data model picked the Tensor method (reflected / mirrored for a literal on the left); the table read from
+        # tensor.py says which operator it calls and where `other` lands
+        op_name, lit_pos, _method = case["eager_route"]
+        calls = [c for c in cap.calls if c[0].name == op_name]
+        if len(calls) != 1:
+            return ("ERR", "WrongSchema", f"calls {[c[0].name for c in cap.calls]}, expected one {op_name}"), None
+        schema, inputs = calls[0]
+        want_since = onnx.defs.get_schema(op_name, case["opset"], "").since_version
+        if schema.since_version != want_since:
+            return ("ERR", "WrongSchema", f"{schema.name}-{schema.since_version}, expected since {want_since}"), None
+        if len(inputs) != 2:
+            return ("ERR", "MissingOperand", f"{len(inputs)} operands"), None
+        t = inputs[lit_pos]
+        tens = [a for a in args if isinstance(a, ostensor.Tensor)][0]
+        if not isinstance(t, ostensor.Tensor) or t is tens:
+            return ("ERR", "NotPromoted", type(t).__name__), None
+        return obs_of_array(t.value), inputs[1 - lit_pos] is tens
     schema, inputs = cap.seen
     if (schema.name, schema.since_version) != (r["name"], r["since"]):
         return ("ERR", "WrongSchema", f"{schema.name}-{schema.since_version}"), None
@@ -271,7 +296,7 @@ def run_builder(case, oracle):
     from onnxscript._internal import builder as B
 
     r = case["schema"]
-    g = ir.Graph([], [], nodes=[], opset_imports={"": r["use"]}, name="g")
+    g = ir.Graph([], [], nodes=[], opset_imports={"": case.get("opset", r["use"])}, name="g")
     gb = B.GraphBuilder(g)
     # onnx's C++ node-level shape inference runs after the node is built (call_op step 10) and can kill the
     # process on meaningless operand values (SplitToSequence(x, 0): SIGFPE); it plays no part in promotion.
@@ -305,7 +330,7 @@ def run_builder(case, oracle):
     node = out0.producer()
     if node is None or node.op_type != r["name"]:
         return ("ERR", "WrongNode", str(node)), None
-    if node.version not in (None, r["use"]):
+    if node.version not in (None, case.get("opset", r["use"])):
         return ("ERR", "WrongVersion", str(node.version)), None
     ins = list(node.inputs)
     if case["pos"] >= len(ins):
@@ -364,6 +389,8 @@ def script_source(case, fname):
             params.append(f"a{i}")
             call.append(f"a{i}")
     if case.get("syntax"):
+        # `-3 ** a1` is -(3 ** a1) in Python: a negative literal is written in parentheses (still a unary minus on a constant)
+        call = [f"({x})" if x.startswith("-") else x for x in call]
         return (f"@script(default_opset=op{case['opset']})\n"
                 f"def {fname}({', '.join(params)}):\n"
                 f"    return {call[0]} {case['syntax']} {call[1]}\n")
@@ -382,10 +409,11 @@ def script_source(case, fname):
         k = case["kw_from"]
         F = r["formals"]
         call = call[:k] + [f"{F[j]['name']}={call[j]}" for j in range(k, len(call)) if case["args"][j][0] != "N"]
-    return (f"@script(default_opset=op{r['use']})\n"
+    use = case.get("opset", r["use"])
+    return (f"@script(default_opset=op{use})\n"
             f"def {fname}({', '.join(params)}):\n"
-            + pre.replace("op.", f"op{r['use']}.")
-            + f"    return op{r['use']}.{r['name']}({', '.join(call + kw)})\n")
+            + pre.replace("op.", f"op{use}.")
+            + f"    return op{use}.{r['name']}({', '.join(call + kw)})\n")
 
 
 _HEADER = ("from onnxscript import script, graph\n"
@@ -405,6 +433,11 @@ def compile_scripts(cases, workdir, tag):
     for i, c in enumerate(cases):
         try:
             src = script_source(c, f"f{i}")
+            # a lookup history: the same call translated first at the opsets of c["history"] (results discarded)
+            for k, v in enumerate(c.get("history", [])):
+                pre_src = script_source(dict(c, opset=v), f"f{i}p{k}")
+                parts.append("try:\n" + "".join("    " + ln + "\n" for ln in pre_src.splitlines())
+                             + f"except Exception as _e:\n    f{i}p{k} = _e\n")
         except Exception as e:  # noqa: BLE001
             broken[i] = e
             continue
@@ -432,6 +465,15 @@ def read_converter(case, fn, oracle):
     nodes = list(g)
     r = case["schema"]
     node = nodes[-1]
+    if case.get("syntax"):
+        # `a != b` is Not(Equal(a, b)): the node that receives the two operands is the one of the mapped operator
+        cands = [n for n in nodes if n.op_type == r["name"]]
+        if len(cands) != 1:
+            return ("ERR", "WrongNode", str([n.op_type for n in nodes])), None
+        node = cands[0]
+        post = case.get("post")
+        if (post is None and node is not nodes[-1]) or (post is not None and (nodes[-1].op_type != post or nodes[-1].inputs[0] is not node.outputs[0])):
+            return ("ERR", "WrongNode", str([n.op_type for n in nodes])), None
     if node.op_type != r["name"]:
         return ("ERR", "WrongNode", node.op_type), None
     if node.version not in (None, case.get("opset", r["use"])):
